@@ -314,6 +314,7 @@ def gen_project(rng: random.Random, size: int = 2) -> dict:
     P["media"] = rng.random() < 0.25
     P["links"] = gen_links(rng, P)
     P["location"] = rng.choice(LOCATIONS)
+    P["assets"] = gen_assets(rng, P)
     return P
 
 
@@ -360,6 +361,72 @@ def gen_pages(rng):
     if rng.random() < 0.3:
         pages["other/index.md"] = {"title": "Other"}
     return pages
+
+
+# ----------------------------------------------------------------- files that are not pages
+
+# A user-supplied icon may be any image type (the option takes a path; the documentation example is a .png, real
+# projects use .ico / .svg as well); sub-directories and upper-case suffixes occur too.
+ICONS = ["logo.png", "logo.ico", "logo.svg", "icons/Logo.PNG", "logo.jpg", "brand.gif", "favicon.ico"]
+MATHJAX = ["conf.js", "mj/My-Config.js"]
+COPY_FILES = [["a.png"], ["a.png", "deep/b.csv"], ["plot.svg", "data/table.csv", "data/more/x.txt"]]
+DIR_FILES = [["notes.txt"], ["notes.txt", "plot.png"], ["archive.tar.gz"]]
+
+
+def gen_page_assets(rng, pages):
+    """What lies next to the static pages besides Markdown: directories copied through `copy_subdir` (the project-wide
+    setting = fall-back of every page, or the page's own metadata - index pages and other pages alike) and plain files
+    of a page directory; plus relative links from the pages to all of it and to one another."""
+    dirs = sorted({rel.rsplit("/", 1)[0] if "/" in rel else "" for rel in pages})
+    out = {"proj_copy_subdir": [], "copy_dirs": [], "own": {}, "dir_files": {}, "page_links": rng.random() < 0.6}
+    if rng.random() < 0.35:
+        out["proj_copy_subdir"] = ["figs"] + (["data"] if rng.random() < 0.3 else [])
+        for d in dirs:
+            for name in out["proj_copy_subdir"]:
+                if rng.random() < 0.6:
+                    out["copy_dirs"].append({"dir": d, "name": name, "files": rng.choice(COPY_FILES)})
+    for rel in sorted(pages):
+        if rng.random() < 0.3:
+            d = rel.rsplit("/", 1)[0] if "/" in rel else ""
+            stem = rel.rsplit("/", 1)[-1][:-3]
+            names = [f"img_{stem}"] + ([f"extra_{stem}"] if rng.random() < 0.25 else [])
+            out["own"][rel] = names
+            for name in names:
+                out["copy_dirs"].append({"dir": d, "name": name, "files": rng.choice(COPY_FILES)})
+    for d in dirs:
+        if rng.random() < 0.35:
+            out["dir_files"][d] = rng.choice(DIR_FILES)
+    return out
+
+
+def gen_assets(rng, P):
+    return {"favicon": rng.choice(ICONS) if rng.random() < 0.3 else None,
+            "mathjax": rng.choice(MATHJAX) if rng.random() < 0.15 else None,
+            "pages": gen_page_assets(rng, P["pages"]) if P["pages"] and rng.random() < 0.7 else None}
+
+
+def page_asset_links(P, rel):
+    """Relative links a page may rely on: into the directories its *effective* `copy_subdir` names (its own metadata,
+    else the project setting) that exist next to it, to the plain files of its directory, to other pages."""
+    import posixpath
+
+    pa = (P.get("assets") or {}).get("pages")
+    if not pa:
+        return []
+    d = rel.rsplit("/", 1)[0] if "/" in rel else ""
+    eff = pa["own"].get(rel) or pa["proj_copy_subdir"]
+    out = []
+    for cd in pa["copy_dirs"]:
+        if cd["dir"] == d and cd["name"] in eff:
+            for f in cd["files"]:
+                out.append((f"![fig]({cd['name']}/{f})" if f.endswith((".png", ".svg")) else f"[file]({cd['name']}/{f})", "page-copy_subdir"))
+    for f in pa["dir_files"].get(d, []):
+        out.append((f"[file]({f})", "page-dir-file"))
+    if pa["page_links"]:
+        for other in sorted(P["pages"]):
+            if other != rel:
+                out.append((f"[page]({posixpath.relpath(other[:-3] + '.html', d or '.')})", "page-relative"))
+    return out
 
 
 # ----------------------------------------------------------------- doc links
@@ -796,7 +863,22 @@ def render(P):
                     lk, cls = cx.rng.choice(cx.mdpool)
                     cx.used["page>" + cls] = cx.used.get("page>" + cls, 0) + 1
                     body.append(f"Also {lk}.")
+            own = ((P.get("assets") or {}).get("pages") or {}).get("own", {}).get(rel)
+            if own:
+                meta.append("copy_subdir: " + own[0])
+                meta += ["    " + x for x in own[1:]]
+            for lk, cls in page_asset_links(P, rel):
+                cx.used[cls] = cx.used.get(cls, 0) + 1
+                body.append(f"Local {lk}.")
             pages[rel] = "\n".join(meta) + "\n\n" + "\n\n".join(body) + "\n"
+        pa = (P.get("assets") or {}).get("pages")
+        if pa:
+            for cd in pa["copy_dirs"]:
+                for f in cd["files"]:
+                    pages[(cd["dir"] + "/" if cd["dir"] else "") + cd["name"] + "/" + f] = b"asset " + f.encode()
+            for d, fs in pa["dir_files"].items():
+                for f in fs:
+                    pages[(d + "/" if d else "") + f] = b"file " + f.encode()
     o = P["opts"]
     opts = {
         "incl_src": str(o["incl_src"]).lower(),
@@ -840,6 +922,13 @@ def render(P):
         opts["media_dir"] = "./media"
     if o["css"]:
         opts["css"] = "./user.css"
+    A = P.get("assets") or {}
+    if A.get("favicon"):
+        opts["favicon"] = "./" + A["favicon"]
+    if A.get("mathjax"):
+        opts["mathjax_config"] = "./" + A["mathjax"]
+    if (A.get("pages") or {}).get("proj_copy_subdir"):
+        opts["copy_subdir"] = list(A["pages"]["proj_copy_subdir"])
     text = "Front page text."
     for _ in range(cx.rng.randint(0, 3)):
         if cx.pool and cx.rng.random() < max(cx.rate, 0.3):
@@ -851,7 +940,8 @@ def render(P):
             cx.used["front>" + cls] = cx.used.get("front>" + cls, 0) + 1
             text += f" Also {lk}."
     return {"files": files, "extra": extra, "pages": pages, "options": opts, "text": text + "\n",
-            "media": P["media"], "css": o["css"], "used": cx.used}
+            "media": P["media"], "css": o["css"], "used": cx.used,
+            "root_files": {x: b"user file " + x.encode() for x in (A.get("favicon"), A.get("mathjax")) if x}}
 
 
 def shape_counts(P):
